@@ -71,13 +71,13 @@ def attempts(ctx, kind, sample, tag, mk_op, data, dense, stride_n, max_idx=None)
     if max_idx and len(idxs) > max_idx:
         step = len(idxs) / float(max_idx)
         idxs = sorted(set([idxs[int(i * step)] for i in range(max_idx)] + idxs[:40] + idxs[-10:]))
-    for k in idxs:
-        t = Faulty(io.BytesIO(data), fail_at=k)
+    for k, sticky in [(k, s) for k in idxs for s in (True, False)]:
+        t = Faulty(io.BytesIO(data), fail_at=k, sticky=sticky)
         r = classify(mk_op(t))
         ctx.oracle_cases += 1
         ctx.count("fault:" + tag)
-        ctx.case((kind.name, sample, tag, "io", k), {"kind": kind.name, "sample": sample, "op": tag, "fault_at": k, "of": n, "result": r} if ctx.oracle_cases % 1999 == 1 else None)
-        d = {"runner": "c06.fault", "kind": kind.name, "sample": sample, "op": tag, "fault": "io", "index": k, "observed": r}
+        ctx.case((kind.name, sample, tag, "io" if sticky else "io-once", k), {"kind": kind.name, "sample": sample, "op": tag, "fault_at": k, "of": n, "sticky": sticky, "result": r} if ctx.oracle_cases % 1999 == 1 else None)
+        d = {"runner": "c06.fault", "kind": kind.name, "sample": sample, "op": tag, "fault": "io" if sticky else "io-once", "index": k, "observed": r}
         if r.startswith("EXC"):
             ctx.violation("oracle", "C06 %s %s: I/O error surfaced as %s" % (kind.name, tag, r[4:]), d)
         if t.closed:
